@@ -130,6 +130,53 @@ IsEmptyVal(v) == \/ (v.t = "str" /\ v.v = "")
 IsBlankVal(v) == \/ IsEmptyVal(v)
                  \/ (v.t = "str" /\ IsSpace(v.v))
 
+\* ---- decimal numbers: mantissa / 10^scale, exact (floats written with a few digits) ------------
+\* A float operand makes the arithmetic filters compute in exact decimal arithmetic
+\* (filters/math.py goes through decimal.Decimal(str(x))) and return a float.
+Dec(m, e) == [t |-> "dec", dm |-> m, de |-> e]
+RECURSIVE Pow10(_)
+Pow10(k) == IF k <= 0 THEN 1 ELSE 10 * Pow10(k - 1)
+RECURSIVE NormDec(_)
+NormDec(d) == IF d.de > 0 /\ d.dm % 10 = 0 THEN NormDec(Dec(d.dm \div 10, d.de - 1)) ELSE d
+MaxE(a, b) == IF a.de >= b.de THEN a.de ELSE b.de
+UpScale(a, e) == a.dm * Pow10(e - a.de)                     \* mantissa at scale e >= a.de
+DPlus(a, b) == NormDec(Dec(UpScale(a, MaxE(a, b)) + UpScale(b, MaxE(a, b)), MaxE(a, b)))
+DMinus(a, b) == NormDec(Dec(UpScale(a, MaxE(a, b)) - UpScale(b, MaxE(a, b)), MaxE(a, b)))
+DTimes(a, b) == NormDec(Dec(a.dm * b.dm, a.de + b.de))
+DLt(a, b) == UpScale(a, MaxE(a, b)) < UpScale(b, MaxE(a, b))
+DEq(a, b) == UpScale(a, MaxE(a, b)) = UpScale(b, MaxE(a, b))
+DIsZero(a) == a.dm = 0
+DFloor(a) == a.dm \div Pow10(a.de)                      \* TLA+ \div floors
+DCeil(a) == -((-a.dm) \div Pow10(a.de))
+\* a / b as an exact decimal with at most 4 fractional digits, if it has one
+DivScale == 4
+\* (TLC's % and \div want a positive divisor: the sign of b is moved to a)
+QNum(a, b) == LET e == MaxE(a, b) IN (IF UpScale(b, e) < 0 THEN -UpScale(a, e) ELSE UpScale(a, e)) * Pow10(DivScale)
+QDen(a, b) == LET e == MaxE(a, b) IN IF UpScale(b, e) < 0 THEN -UpScale(b, e) ELSE UpScale(b, e)
+DQuotExact(a, b) == QNum(a, b) % QDen(a, b) = 0
+DQuot(a, b) == NormDec(Dec(QNum(a, b) \div QDen(a, b), DivScale))
+\* floored modulo, as for integers: a - b * floor(a / b)
+DMod(a, b) == LET e == MaxE(a, b) IN NormDec(Dec(UpScale(a, e) % UpScale(b, e), e))
+\* rounding to k digits, ties excluded by the caller
+DRoundable(a, k) == a.de <= k \/ (a.dm % Pow10(a.de - k)) * 2 # Pow10(a.de - k)
+DRound(a, k) == IF a.de <= k THEN a
+                ELSE LET cut == Pow10(a.de - k)
+                         lo == a.dm \div cut IN
+                     NormDec(Dec(IF (a.dm % cut) * 2 > cut THEN lo + 1 ELSE lo, k))
+
+\* the text of a float (Python repr for these magnitudes): at least one fractional digit
+DecText(d0) ==
+  LET d == NormDec(d0)
+      neg == d.dm < 0
+      digits == ToString(IF neg THEN -d.dm ELSE d.dm)
+      padded == IF Len(digits) <= d.de THEN SubSeq("0000000000", 1, d.de - Len(digits) + 1) \o digits ELSE digits
+      ip == SubSeq(padded, 1, Len(padded) - d.de)
+      fp == SubSeq(padded, Len(padded) - d.de + 1, Len(padded))
+  IN (IF neg THEN "-" ELSE "") \o ip \o "." \o (IF fp = "" THEN "0" ELSE fp)
+
+IsNumV(x) == x.t \in {"int", "dec"}
+AsDec(x) == IF x.t = "int" THEN Dec(x.n, 0) ELSE x
+
 RECURSIVE LEq(_, _)
 LEq(a, b) ==
   CASE a.t = "empty" /\ b.t = "empty" -> TRUE
@@ -142,6 +189,7 @@ LEq(a, b) ==
     [] a.t \in {"nil", "undef"} -> b.t \in {"nil", "undef"}
     [] b.t \in {"nil", "undef"} -> FALSE
     [] a.t = "int" /\ b.t = "int" -> a.n = b.n
+    [] IsNumV(a) /\ IsNumV(b) -> DEq(AsDec(a), AsDec(b))
     [] a.t = "str" /\ b.t = "str" -> a.v = b.v
     [] a.t = "arr" /\ b.t = "arr" ->
          Len(a.v) = Len(b.v) /\ \A i \in DOMAIN a.v : LEq(a.v[i], b.v[i])
@@ -155,6 +203,7 @@ LLt(a, b) ==
   CASE a.t = "str" /\ b.t = "str" -> IF StrLt(a.v, b.v) THEN 1 ELSE 0
     [] a.t = "bool" \/ b.t = "bool" -> 0
     [] a.t = "int" /\ b.t = "int" -> IF a.n < b.n THEN 1 ELSE 0
+    [] IsNumV(a) /\ IsNumV(b) -> IF DLt(AsDec(a), AsDec(b)) THEN 1 ELSE 0
     [] OTHER -> 2
 
 -----------------------------------------------------------------------------
@@ -164,6 +213,7 @@ OutStr(v) ==
   CASE v.t = "str"   -> v.v
     [] v.t = "bool"  -> IF v.b THEN "true" ELSE "false"
     [] v.t = "int"   -> ToString(v.n)
+    [] v.t = "dec"   -> DecText(v)
     [] v.t = "range" -> ToString(v.a) \o ".." \o ToString(v.b)
     [] v.t = "arr"   -> JoinStr([i \in DOMAIN v.v |-> OutStr(v.v[i])], "")
     [] OTHER         -> ""     \* nil, undefined, empty, blank
